@@ -79,6 +79,8 @@ impl Oracles {
             "C12" => {
                 o.fault_contract = true;
                 o.picture = true;
+                o.size = true;
+                o.orient = true;
             }
             "C13" => o.sleep = true,
             "C16" => o.scroll = true,
@@ -680,11 +682,25 @@ pub fn exec_case(case: &Case, opt: &ExecOpt) -> Outcome {
     let mut outstanding_failure = false;
     let mut i = 0usize;
     let mut retried = false;
+    let mut skipped_failed_call = false;
     let mut reinit_fail: Option<InitFail> = None;
     let mut reinit_dead = false;
     while i < case.program.len() {
         let op = &case.program[i];
         let name = op.name();
+        if skipped_failed_call {
+            // the rest of the program was written for the state the failed call would have
+            // produced; keep going only while it is still a legal use of the API
+            let (lw, lh) = rm.logical_size();
+            let legal = match op {
+                Op::SetPixel { x, y, .. } => (*x as u32) < lw && (*y as u32) < lh,
+                Op::SetPixels { sx, sy, ex, ey, .. } => sx <= ex && sy <= ey && (*ex as u32) < lw && (*ey as u32) < lh,
+                _ => true,
+            };
+            if !legal {
+                break;
+            }
+        }
         let visible = rm.visible_points(op);
         let fired_before;
         let log_before;
@@ -863,6 +879,33 @@ pub fn exec_case(case: &Case, opt: &ExecOpt) -> Outcome {
                     if matches!(op, Op::Sleep | Op::Wake) && (orc.sleep || orc.fault_contract) && dut.is_sleeping() != rm.sleeping {
                         out.violation = Some(viol(case, "sleep-flag-after-failed-call", name, i as i64, format!("is_sleeping() = {} after a failed {}", dut.is_sleeping(), name)));
                         break;
+                    }
+                    // Did the command reach the controller before the error was reported?
+                    let reached = events.iter().any(|e| match (op, e) {
+                        (Op::SetOrientation { .. }, CtrlEv::Cmd { op: 0x36, params, .. }) => !params.is_empty(),
+                        (Op::Sleep, CtrlEv::Cmd { op: 0x10, .. }) | (Op::Wake, CtrlEv::Cmd { op: 0x11, .. }) => true,
+                        (Op::ScrollRegion { .. }, CtrlEv::Cmd { op: 0x33, .. }) | (Op::ScrollOffset { .. }, CtrlEv::Cmd { op: 0x37, .. }) => true,
+                        (Op::Tearing { .. }, CtrlEv::Cmd { op: 0x34 | 0x35, .. }) => true,
+                        _ => false,
+                    });
+                    if matches!(op, Op::SetOrientation { .. }) && (orc.orient || orc.fault_contract) && dut.orientation() != rm.orient && !reached {
+                        out.violation = Some(viol(
+                            case,
+                            "orientation-after-failed-call",
+                            name,
+                            i as i64,
+                            format!("orientation() = {:?} after a set_orientation that failed before the controller received the address mode (still {:?} there)", dut.orientation(), rm.orient),
+                        ));
+                        break;
+                    }
+                    // (an earlier attempt of this same call may have got through before failing)
+                    let reached = reached || outstanding_failure;
+                    if !reached && case.seed & 1 == 1 {
+                        // this client does not retry: the failed call changed nothing at the
+                        // controller, so the display must carry on exactly as before it
+                        skipped_failed_call = true;
+                        i += 1;
+                        continue;
                     }
                     outstanding_failure = true;
                     retried = true;
